@@ -334,10 +334,14 @@ def units(tier, seed):
     us = []
     for i in range(n // per):
         us.append({"seed": seed * 7919 + i, "n": per, "cls": "IH5Record" if i % 2 == 0 else "IH5MFRecord"})
+    us.insert(0, {"kind": "pytest"})  # the repository's own tests as one more workload under the ledger
     return us
 
 
 def run_unit(u, acc):
+    if u.get("kind") == "pytest":
+        from vlib import pytest_workload
+        return pytest_workload.run(acc, "ledger", "upstream-suite")
     rng = random.Random(u["seed"])
     for j in range(u["n"]):
         plan = gen_history(rng, rng.randint(6, 30))
@@ -355,4 +359,7 @@ def inconclusive(cov):
 
 
 def replay(case, acc):
+    if case.get("kind") == "pytest":
+        from vlib import pytest_workload
+        return pytest_workload.run(acc, "ledger", "upstream-suite")
     check_case(case, acc)
